@@ -213,3 +213,13 @@ deriving Repr, DecidableEq, Inhabited
 abbrev ReaderAt := Int → Int → (List UInt8 × Error)
 
 end Go
+
+namespace Go
+
+/-- `ReadByte()` on an in-memory byte stream: the next byte, or `io.EOF` -/
+def readByte (r : BytesReader) : M (BytesReader × UInt8) :=
+  match r.data.drop r.pos with
+  | [] => .error (.err "EOF")
+  | b :: _ => pure ({ r with pos := r.pos + 1 }, b)
+
+end Go
